@@ -508,6 +508,23 @@ func (b *Builder) Branch() {
 		b.Meta["gadget"]++
 		k = rapid.IntRange(0, 1).Draw(b.t, "gadgetextra")
 	}
+	if known && taken && b.P.Hostile && gadget == 0 && k > 0 && rapid.IntRange(0, 7).Draw(b.t, "innerflush") == 0 {
+		// a younger wrong-path instruction that asks for a flush before the
+		// branch resolves: a multi-cycle load (its result arrives late), then a
+		// jump the branch target buffer has never seen, then more wrong path
+		op := b.memOp(loadOps)
+		b.emit(ref.Ins{Op: op, Rd: b.dest("rd"), Rs1: 0, Imm: b.addr(ref.AccessSize(op), "ea")})
+		over := b.label()
+		if rapid.Bool().Draw(b.t, "ifjal") {
+			b.emit(ref.Ins{Op: "jal", Rd: rapid.SampledFrom([]int{0, 1}).Draw(b.t, "link"), Label: over})
+		} else {
+			b.emit(ref.Ins{Op: "j", Label: over})
+		}
+		b.emit(ref.Ins{Op: "li", Rd: b.dest("rd"), Imm: 4})
+		b.place(over)
+		b.Meta["innerflush"]++
+		k = rapid.IntRange(0, 1).Draw(b.t, "ifextra")
+	}
 	for i := 0; i < k; i++ {
 		if known && taken && b.P.Hostile {
 			b.Hostile(l)
